@@ -64,23 +64,29 @@ class Handshake:
         self.subprotocols: Optional[List[str]] = None
         self.upgrade: Optional[bytes] = None
         self.version: Optional[bytes] = None
+        self.decodable = True
         for name, value in headers:
             name = name.lower()
-            if name == b"connection":
-                self.connection_tokens = split_comma_header(value)
-            elif name == b"sec-websocket-extensions":
-                self.extensions = split_comma_header(value)
-            elif name == b"sec-websocket-key":
-                self.key = value
-            elif name == b"sec-websocket-protocol":
-                self.subprotocols = split_comma_header(value)
-            elif name == b"sec-websocket-version":
-                self.version = value
-            elif name == b"upgrade":
-                self.upgrade = value
+            try:
+                if name == b"connection":
+                    self.connection_tokens = split_comma_header(value)
+                elif name == b"sec-websocket-extensions":
+                    self.extensions = split_comma_header(value)
+                elif name == b"sec-websocket-key":
+                    self.key = value
+                elif name == b"sec-websocket-protocol":
+                    self.subprotocols = split_comma_header(value)
+                elif name == b"sec-websocket-version":
+                    self.version = value
+                elif name == b"upgrade":
+                    self.upgrade = value
+            except UnicodeDecodeError:
+                self.decodable = False  # Token lists must be ASCII
 
     def is_valid(self) -> bool:
-        if self.http_version < "1.1":
+        if not self.decodable:
+            return False
+        elif self.http_version < "1.1":
             return False
         elif self.http_version == "1.1":
             if self.key is None:
